@@ -44,6 +44,9 @@ pub fn run_case(case: &Case) -> Outcome {
             if fl.huge {
                 labels.push("timestamp>=2^64ns");
             }
+            if fl.zero_burst {
+                labels.push("burst-of->=65-events-at-the-current-time");
+            }
             if fl.cancel_fetched {
                 labels.push("cancel-of-fetched-handle");
             }
@@ -107,6 +110,7 @@ impl Prop for C01 {
                 max_len: 300,
                 seed,
                 seeds: crate::fuzz::random_seeds(seed, 24, 300),
+                max_time: 1500,
             },
             ev,
         )
